@@ -17,7 +17,9 @@ pub(crate) enum Command {
     Backup,
     /// restore the GPA service
     Restore {
-        #[arg(default_value_t = true)]
+        // a bool argument defaults to a flag action that takes no value: ask for a value explicitly, so
+        // that 'restore false' (keep the backup) can be expressed
+        #[arg(default_value_t = true, action = clap::ArgAction::Set)]
         delete_backup: bool,
     },
     /// uninstall the GPA service
